@@ -92,6 +92,16 @@ def gen(rng, ctx):
     if r < 0.25:
         for v in rng.sample(names, min(len(names), rng.randint(1, 3))):
             m[v] = rng.choice(["\\" + v + "[0]", "\\" + v + "-1", "\\" + v + "$x", "\\1" + v, "\\" + v + "//a", "\\" + v + "/*", "\\*/" + v, "\\" + v + ");"])
+        if rng.random() < 0.3:
+            # every operand of the long statements is an escaped name with hyphens (candidates for a line-wrapping writer);
+            # a port list and a gate of 10..18 such names make the statements long
+            extra = [f"hx{j}" for j in range(rng.randint(10, 18))]
+            cd["nodes"] += [[x, "input", False] for x in extra] + [["hw", rng.choice(["and", "nor", "xor"]), True]]
+            cd["edges"] += [[x, "hw"] for x in extra]
+            names = names + extra + ["hw"]
+            kind += "+hyphenated_long_statements"
+            for v in names:
+                m.setdefault(v, "\\" + rng.choice(["lane", "bus", "ab"]) + "-" + v + rng.choice(["ab", "xy35", "-cd"]))
         kind += "+escaped"
     elif r < 0.33:
         for v in rng.sample(names, min(len(names), rng.randint(1, 3))):
@@ -140,7 +150,17 @@ def gen(rng, ctx):
             cd = G.cd_rename(cd, m)
         except ValueError:
             pass
-    return {"c": cd, "kind": kind, "behavioral": rng.random() < 0.5, "file": rng.random() < 0.25}
+    file = rng.random() < 0.25
+    stem = None
+    if file and rng.random() < 0.5:
+        # module names with a dollar sign, and files whose stem is not the module name (the only module is then read):
+        # the part in front of the dollar, a proper prefix, something unrelated
+        if rng.random() < 0.6:
+            cd["name"] = rng.choice(["alu$opt", "top$1", "m$", "core$$x"])
+        stem = rng.choice([cd["name"].split("$")[0], cd["name"][:2], "netlist", cd["name"] + "_x", cd["name"].upper()])
+        if not stem or stem == cd["name"]:
+            stem = "netlist"
+    return {"c": cd, "kind": kind, "behavioral": rng.random() < 0.5, "file": file, "stem": stem}
 
 
 def check(case, ctx):
@@ -162,7 +182,11 @@ def check(case, ctx):
     if case["file"]:
         # the extension decides the format unless `fmt` is given; an explicit fmt overrides any extension
         ext = [".v", ".v", ".vg", ".txt", ".bench", ""][len(cd["nodes"]) % 6]
-        path = os.path.join(ctx.scratch, f"{c.name}{ext}")
+        path = os.path.join(ctx.scratch, f"{case.get('stem') or c.name}{ext}")
+        if case.get("stem"):
+            ctx.count("file_stem_differs_from_module_name")
+            if "$" in c.name and case["stem"] == c.name.split("$")[0]:
+                ctx.count("file_stem_is_module_name_up_to_dollar")
         if len(cd["edges"]) % 2:
             import pathlib
 
@@ -254,5 +278,5 @@ def check(case, ctx):
 
 
 def gates(counters, table, tier):
-    need = ["class:cyclic", "class:dollar_underscore", "class:no_inputs", "class:no_outputs", "behavioral:True", "behavioral:False", "class:bb", "class:escaped", "class:lookalike", "with_constants", "unconnected_pins", "identical_graph_branch", "via_file"]
+    need = ["class:cyclic", "class:dollar_underscore", "class:no_inputs", "class:no_outputs", "behavioral:True", "behavioral:False", "class:bb", "class:escaped", "class:lookalike", "with_constants", "unconnected_pins", "identical_graph_branch", "via_file", "file_stem_differs_from_module_name", "class:hyphenated_long_statements", "file_stem_is_module_name_up_to_dollar"]
     return [f"{k} seen {counters.get(k, 0)} times" for k in need if counters.get(k, 0) < 5]
